@@ -1,8 +1,10 @@
-// mc::cover() keeps its table in the engine and updates it with strncmp/strncpy, which ThreadSanitizer
-// intercepts: calling it from two modelled threads that are not ordered by the program under test (T0 and
+// (At the time of writing) mc::cover() kept its table in the engine and updated it with strncmp/strncpy, which
+// ThreadSanitizer intercepts: calling it from two modelled threads that are not ordered by the program under test (T0 and
 // a pool worker running a task body) makes the tsan build report a race *in the engine*. These harnesses
 // therefore record path markers in relaxed cells from any thread and hand them to mc::cover() from T0 only,
-// at the end of the body (an execution that ends in a violation reports no markers).
+// at the end of the body (an execution that ends in a violation reports no markers). The engine has since been
+// changed to use its own byte loops; routing the markers through T0 remains correct and keeps task bodies free of
+// engine calls.
 #pragma once
 #include "mc_harness.h"
 
